@@ -4,7 +4,7 @@ From Coq Require Import ZArith List Bool.
 From PV Require Import Model.Base Model.Sched Model.Chan Model.Seq Model.SeqSnap.
 From PV Require Gen.Pure Gen.PureLoops Gen.PureState Model.Chan Proofs.PureEq Proofs.PureLoopsEq Proofs.PureStateEq.
 From PV Require Proofs.SourceTie.
-From PV Require Import Proofs.SchedInv Proofs.SchedOps Proofs.SeqInv Proofs.DurationSpec Proofs.AlignWitness.
+From PV Require Import Proofs.SchedInv Proofs.SchedOps Proofs.SeqInv Proofs.DurationSpec Proofs.AlignWitness Proofs.SeqHistory.
 Import ListNotations.
 Open Scope Z_scope.
 
@@ -37,6 +37,39 @@ Theorem C02_channel_only_grows :
     exists c', find_chan n s' = Some c' /\ chan_ext (env_of v) c c'.
 Proof. exact sxp_find. Qed.
 Print Assumptions C02_channel_only_grows.
+
+(** The same over whole histories: after ANY continuation [ops2] (failing
+    calls included) of ANY history [ops1], every channel timeline of the
+    earlier state is still there position by position, extended only at its
+    newest end; newly declared channels come after the existing ones. *)
+Theorem C02_history_times_never_move :
+  forall (v : senv) (ops1 ops2 : list op),
+    senv_ok v -> sxp v (q_sched (run v ops1)) (q_sched (run v (ops1 ++ ops2))).
+Proof. exact history_times_never_move. Qed.
+Print Assumptions C02_history_times_never_move.
+
+(** Per channel and per instruction: the channel keeps its id, configuration
+    and map; each instruction scheduled by the earlier history is still in
+    the timeline as the very same record (start, end, payload), and the
+    reported channel duration is never below its end. *)
+Theorem C02_history_channel_kept :
+  forall (v : senv) (ops1 ops2 : list op) (n : Z) (c : chan),
+    senv_ok v -> find_chan n (q_sched (run v ops1)) = Some c ->
+    exists c', find_chan n (q_sched (run v (ops1 ++ ops2))) = Some c' /\
+      ch_id c' = ch_id c /\ ch_cfg c' = ch_cfg c /\ ch_map c' = ch_map c /\
+      (exists ext, ch_slots c' = ext ++ ch_slots c) /\
+      forall x, In x (ch_slots c) -> In x (ch_slots c') /\ s_tf x <= ch_duration c' false.
+Proof. exact history_channel_kept. Qed.
+Print Assumptions C02_history_channel_kept.
+
+(** Channel durations never decrease along a history. *)
+Theorem C02_history_duration_monotone :
+  forall (v : senv) (ops1 ops2 : list op) (n : Z) (c : chan),
+    senv_ok v -> find_chan n (q_sched (run v ops1)) = Some c -> ch_slots c <> [] ->
+    exists c', find_chan n (q_sched (run v (ops1 ++ ops2))) = Some c' /\
+      ch_duration c false <= ch_duration c' false.
+Proof. exact history_duration_monotone. Qed.
+Print Assumptions C02_history_duration_monotone.
 
 (** The reported duration of a channel is the end of its newest instruction,
     which is the latest end of all its instructions. *)
